@@ -1,10 +1,13 @@
 (* C01 Operators never start before their parents have completed; DAG iteration is topological.
    Statements only; every proof is [exact <lemma of Proofs/>]. *)
-From Coq Require Import List Arith Bool Permutation.
+From Coq Require Import List Arith Bool Permutation ZArith QArith.
 Import ListNotations.
+From Eudoxia Require Import Model.Sched Model.Simulator Proofs.PriorityPoolRunFacts Proofs.SimReachFacts.
 From Eudoxia Require Import Model.Types Model.Dag Model.Lifecycle
   Model.Container Model.Pool Model.Executor Proofs.DagProof Proofs.DagBounded Proofs.LifecycleFacts
   Proofs.ExecLifeFacts.
+Close Scope Q_scope.
+Close Scope Z_scope.
 
 (* Iterating a pipeline's operators visits every operator exactly once ... (all DAGs, no bound) *)
 Theorem C01_iter_perm : forall g, wf_dag g -> Permutation (iterate g) (nodes g).
@@ -64,3 +67,31 @@ Example C01_witness :
   exists w, transition_all S (init_world S) [0; 1; 2; 3] Assigned = Ok w
             /\ transition S w 3 Running = Err EDep /\ iterate [[]; [0]; [0]; [1; 2]] = [0; 1; 2; 3].
 Proof. eexists. repeat split; vm_compute; reflexivity. Qed.
+
+(* Simulator level: the same invariant in every state a full simulation passes through, under every shipped
+   scheduler ([a] ranges over naive, starter, overbook, priority, priority-pool), any pools, any arrivals.
+   [sim_reach C a 0 (init_sim ..) t s]: [s] is the simulator state after [t] ticks of some run
+   (Proofs/SimReachFacts.v shows that its executor state is [reach_exec_r]-reachable: every scheduler's
+   returned world is the one in which exactly its Assignment objects were created, and every assignment
+   names known operators). *)
+Theorem C01_sim_dep_inv : forall C a l np cpu ram t s,
+  cf_static C = mk_static l -> dags_wf l ->
+  sim_reach C a 0%Z (init_sim C np cpu ram) t s ->
+  DepInv (cf_static C) (e_world (sm_exec s)).
+Proof. exact sim_dep_inv. Qed.
+Print Assumptions C01_sim_dep_inv.
+
+(* ... in particular in the state [sim_run] ends in (normally, or at the tick that raised) *)
+Theorem C01_sim_run_dep_inv : forall C a l np cpu ram arrivals sf logs oe,
+  cf_static C = mk_static l -> dags_wf l ->
+  sim_run C a 0%Z (init_sim C np cpu ram) arrivals = (sf, logs, oe) ->
+  DepInv (cf_static C) (e_world (sm_exec sf)).
+Proof. exact sim_run_dep_inv. Qed.
+Print Assumptions C01_sim_run_dep_inv.
+
+(* non-vacuity: a diamond and an OOM-ing operator under each of the five schedulers, state after three
+   ticks (both branches of the diamond completed, the join assigned / pending / completed) *)
+Example C01_sim_witness : forall a,
+  DepInv (cf_static SimReachExamples.Cx) (e_world (sm_exec (SimReachExamples.mid a))) /\
+  st_of (e_world (sm_exec (SimReachExamples.mid a))) 2 = Completed.
+Proof. intros a. split; [apply SimReachExamples.mid_dep_inv | destruct a; vm_compute; reflexivity]. Qed.
